@@ -82,6 +82,10 @@ var kinds = []kind{
 	{"syncmap-iterate-bad", "smiter()", false, true, false},
 	{"recursion-unbounded", "rec()", false, false, true},
 	{"recursion-200-locals", "fat(1)", false, false, true},
+	// the frame limit is reached before the value-stack limit (<= 2 slots per activation) and the overflow error is
+	// intercepted by a handler inside the recursive function itself
+	{"recursion-caught-inside", "rcatch()", false, false, true},
+	{"recursion-finally-inside", "rfin()", false, false, true},
 }
 
 func prelude() string {
@@ -92,7 +96,7 @@ func prelude() string {
 	}
 	fat.WriteString("return fat(v0) + v199 }; ")
 	return "global (L, PANIC, PANICAFTER, BAD, CB, SM); smset := func() { SM[BAD] = 1; return 1 }; smiter := func() { for k, v in SM { x := BAD.x }; return 1 }; zero := 0; neg := -1; five := 5; o := 1; two := func(a, b) { return a }; thrower := func() { throw \"t\" }; " +
-		"iterBad := func() { for v in BAD { return v }; return 0 }; var rec; rec = func() { return rec() + 1 }; " + fat.String()
+		"iterBad := func() { for v in BAD { return v }; return 0 }; var rec; rec = func() { return rec() + 1 }; var rcatch; rcatch = func() { try { return rcatch() + 1 } catch { return 0 } }; var rfin; rfin = func() { try { return rfin() + 1 } finally { zero = 0 } }; " + fat.String()
 }
 
 func globals() ugo.Map {
